@@ -107,7 +107,10 @@ def second_session_subs(rng, subs):
     from .gen_a import dec, loguniform, round_sig
     from fractions import Fraction as F
     out = []
-    for name, kind, mw, rho, act in subs:
+    for spec in subs:
+        if len(spec) > 5:
+            continue                # twins stay in the first session
+        name, kind, mw, rho, act = spec
         if kind == 'enzyme':
             val = round_sig(rng, loguniform(rng, 1e-3, 1e6), True)
             out.append([name, kind, None, None, f"{dec(val)} U/g"])
